@@ -1020,7 +1020,7 @@ pub fn scenario_shape(tier: &str, base_seed: u64, g: u64) -> Scenario {
             }
         }
     };
-    let classes = ["code", "code", "code+eeprom", "code+eeprom", "eeprom-only", "empty", "comments", "fail", "fail", "missing", "part-file", "part-file", "shadowed-part-file", "patterned-data", "no-ram-device", "local-include", "large", "large", "gen-any", "not-utf8", "source-is-directory", "no-source-option", "unknown-option", "in-standard-includes", "include-only-in-cwd-subdir"];
+    let classes = ["code", "code", "code+eeprom", "code+eeprom", "eeprom-only", "empty", "comments", "fail", "fail", "missing", "part-file", "part-file", "shadowed-part-file", "patterned-data", "no-ram-device", "local-include", "large", "large", "gen-any", "not-utf8", "source-is-directory", "no-source-option", "unknown-option", "in-standard-includes", "include-only-in-cwd-subdir", "panics-today"];
     let mut class = classes[r.usize(classes.len())].to_string();
     if class == "in-standard-includes" && !(form == "bare" && !has_raw(stem)) {
         class = "code+eeprom".into(); // only a bare, plain name can be looked up there
@@ -1043,6 +1043,9 @@ pub fn scenario_shape(tier: &str, base_seed: u64, g: u64) -> Scenario {
         "eeprom-only" => Some(format!("; nothing for the flash\n.eseg\n.db {}, 2, 3\n.dw {}\n", r.below(256), r.below(60000))),
         "empty" => Some(String::new()),
         "comments" => Some("; only a comment\n\n   // and another\n".to_string()),
+        // a source on which today's library panics instead of returning an error (a C16 matter);
+        // for the tool it is a build that fails: reported, non-zero status, nothing written
+        "panics-today" => Some(format!("    nop\n{}\n", ["    ldi r99, 1", ".equ big = 99999999999999999999", "    ldi r16", "    add r1"][r.usize(4)])),
         "fail" => {
             let k = proggen::FAIL_KINDS[r.usize(proggen::FAIL_KINDS.len())];
             let eep = if r.chance(1, 2) { ".eseg\n.db 1, 2\n.cseg\n" } else { "" };
